@@ -75,6 +75,13 @@ def gen_cases(tier, seed):
         if first is None:
             continue
         targets = ir.term_targets(first)
+        if targets and r.random() < 0.25:
+            # unevaluated delta linking a target with a contracted index
+            t0 = r.choice(targets)
+            n0, sp0 = ir.split_index(t0)
+            c0 = g.fresh(ir.index_space(n0), set(ir.term_indices(first)), sp0)
+            first = ir.rename_term(first, {t0: c0})
+            first['objs'].append({'t': 'delta', 'up': [t0, c0]})
         terms = [first]
         if comp:
             ncopies = r.choice([1, 1, 2])
@@ -97,6 +104,22 @@ def gen_cases(tier, seed):
                     c = r.choice(['1', '-1', '2', '1/3', '-3/2'])
                     t2['pref'] = f"({src['pref']})*({c})*({sign})"
                     terms.append(t2)
+                elif r.random() < 0.4 and len(targets) >= 2:
+                    # NOT alpha-equivalent: two target indices of one space
+                    # exchanged (must not be merged unless truly symmetric)
+                    src = r.choice(terms)
+                    by = {}
+                    for t_ in targets:
+                        n_, sp_ = ir.split_index(t_)
+                        by.setdefault((ir.index_space(n_), sp_), []).append(t_)
+                    groups = [v for v in by.values() if len(v) >= 2]
+                    if groups:
+                        a_, b_ = r.sample(r.choice(groups), 2)
+                        t2 = ir.rename_term(src, {a_: b_, b_: a_})
+                        t2, sign, _ = g.alpha_rename(t2, targets)
+                        c = r.choice(['1', '-1', '-1', '2'])
+                        t2['pref'] = f"({src['pref']})*({c})*({sign})"
+                        terms.append(t2)
                 else:
                     t2 = g.term(targets=targets, nobj=r.randint(1, maxobj))
                     if t2 is not None:
